@@ -987,6 +987,9 @@ func processValue(fset *token.FileSet, info *types.Info, call *ast.CallExpr) (*V
 	}
 	// Result type can't be an interface type; use wire.InterfaceValue for that.
 	argType := info.TypeOf(call.Args[0])
+	if isUntypedNil(argType) {
+		return nil, notePosition(fset.Position(call.Pos()), errors.New("argument to Value may not be nil"))
+	}
 	if _, isInterfaceType := argType.Underlying().(*types.Interface); isInterfaceType {
 		return nil, notePosition(fset.Position(call.Pos()), fmt.Errorf("argument to Value may not be an interface value (found %s); use InterfaceValue instead", types.TypeString(argType, nil)))
 	}
@@ -1016,6 +1019,9 @@ func processInterfaceValue(fset *token.FileSet, info *types.Info, call *ast.Call
 		return nil, notePosition(fset.Position(call.Pos()), fmt.Errorf("first argument to InterfaceValue must be a pointer to an interface type; found %s", types.TypeString(ifaceArgType, nil)))
 	}
 	provided := info.TypeOf(call.Args[1])
+	if isUntypedNil(provided) {
+		return nil, notePosition(fset.Position(call.Pos()), errors.New("second argument to InterfaceValue may not be nil"))
+	}
 	if !types.Implements(provided, methodSet) {
 		return nil, notePosition(fset.Position(call.Pos()), fmt.Errorf("%s does not implement %s", types.TypeString(provided, nil), types.TypeString(iface, nil)))
 	}
@@ -1025,6 +1031,12 @@ func processInterfaceValue(fset *token.FileSet, info *types.Info, call *ast.Call
 		expr: call.Args[1],
 		info: info,
 	}, nil
+}
+
+// isUntypedNil reports whether t is the type of the predeclared value nil.
+func isUntypedNil(t types.Type) bool {
+	b, ok := t.(*types.Basic)
+	return ok && b.Kind() == types.UntypedNil
 }
 
 // processFieldsOf creates a slice of fields from a wire.FieldsOf call.
